@@ -5,7 +5,7 @@ Scenarios ==
     [entry : {"universal", "search", "pipeline", "cached", "monitored", "cli"},
      limit : Limits, deflt : {5}, nlp : BOOLEAN, fuzzy : BOOLEAN, thr : Thrs,
      ponly : BOOLEAN, pboost : BOOLEAN, allplat : BOOLEAN, plats : {{}, {"windows"}, {"macos", "linux"}}, nocross : BOOLEAN,
-     boost : BOOLEAN, query : {"lex", "typo", "substr", "none"}, corpus : Corpora]
+     boost : BOOLEAN, query : {"lex", "typo", "substr", "partial", "none"}, corpus : Corpora]
 \* option combinations an entry point cannot express are not scenarios
 Expressible(s) ==
     /\ (s.entry = "search" => ~s.nlp /\ ~s.fuzzy /\ s.thr = 0 /\ ~s.ponly /\ ~s.pboost /\ ~s.allplat /\ s.plats = {} /\ ~s.nocross /\ ~s.boost)
